@@ -75,7 +75,8 @@ type c15Op struct {
 	Height      int64  `json:"height"`       // announced / requested height
 	ServeHeight int64  `json:"serve_height"` // header height of the served block (== Height for well-behaved sources)
 	TxSet       int    `json:"txset"`        // index into the pool of transaction sets (0 = no transactions)
-	InWindow    bool   `json:"in_window"`
+	InWindow    bool   `json:"in_window"` // what the node treats as inside its window (a disabled window: everything)
+	Old         bool   `json:"old"`       // block time far outside the default storage window
 	Consistent  bool   `json:"consistent"` // header.DataHash commits to the square
 	ChainOK     bool   `json:"chain_ok"`
 	AppVersion  uint64 `json:"app_version"` // 0 makes da.ConstructEDS fail
@@ -93,6 +94,7 @@ type c15History struct {
 	Archival bool    `json:"archival"`
 	Sources  int     `json:"sources"`
 	ViaStart bool    `json:"via_start"` // events go through Listener.Start / SubscribeNewBlockEvent instead of direct calls
+	WinOff   bool    `json:"window_disabled"` // core components run with WithAvailabilityWindow(0): the window is disabled, every block counts as inside
 	Ops      []c15Op `json:"ops"`
 }
 
@@ -164,7 +166,7 @@ func (w *c15World) signedBlock(op *c15Op) *SignedBlock {
 	ts := w.pool[op.TxSet]
 	h := headertest.RandRawHeader(w.t)
 	h.Height = op.ServeHeight
-	h.Time = c15BlockTime(op.InWindow)
+	h.Time = c15BlockTime(!op.Old)
 	h.ChainID = c15Chain
 	if !op.ChainOK {
 		h.ChainID = "some-other-chain"
@@ -370,7 +372,7 @@ type c15Node struct {
 	archival bool
 }
 
-func c15NewNode(t *testing.T, w *c15World, archival bool, nSrc int) *c15Node {
+func c15NewNode(t *testing.T, w *c15World, archival bool, nSrc int, winOff bool) *c15Node {
 	n := &c15Node{w: w, archival: archival, bc: &c15Bcast{}}
 	n.dir = t.TempDir()
 	st, err := store.NewStore(store.DefaultParameters(), n.dir)
@@ -386,6 +388,9 @@ func c15NewNode(t *testing.T, w *c15World, archival bool, nSrc int) *c15Node {
 	}
 	n.ms = newMultiSource(tagged...)
 	opts := []Option{WithChainID(p2p.Network(c15Chain)), WithAvailabilityWindow(availability.StorageWindow)}
+	if winOff {
+		opts = []Option{WithChainID(p2p.Network(c15Chain)), WithAvailabilityWindow(0)}
+	}
 	fopts := []full.Option{}
 	if archival {
 		opts = append(opts, WithArchivalMode())
@@ -640,7 +645,7 @@ func (w *c15World) opTerm(op *c15Op) string {
 // ---------------------------------------------------------------- generation
 
 func c15GenHistory(rng *zv.Rand, nSets int, viaStart bool) *c15History {
-	h := &c15History{Archival: rng.Chance(40), Sources: 1 + rng.Intn(4), ViaStart: viaStart}
+	h := &c15History{Archival: rng.Chance(40), Sources: 1 + rng.Intn(4), ViaStart: viaStart, WinOff: rng.Chance(15)}
 	nHeights := 3 + rng.Intn(6)
 	base := int64(1 + rng.Intn(1000))
 	type hb struct {
@@ -718,7 +723,7 @@ func c15GenHistory(rng *zv.Rand, nSets int, viaStart bool) *c15History {
 		a := seqs[s][pos[s]]
 		pos[s]++
 		b := blocks[a.idx]
-		op := c15Op{Kind: "core", Height: base + int64(a.idx), ServeHeight: base + int64(a.idx), TxSet: b.txset, InWindow: b.inWindow,
+		op := c15Op{Kind: "core", Height: base + int64(a.idx), ServeHeight: base + int64(a.idx), TxSet: b.txset, InWindow: b.inWindow || h.WinOff, Old: !b.inWindow,
 			Consistent: b.consistent, ChainOK: true, AppVersion: b.app, Src: a.src, FetchOK: !rng.Chance(15), Sync: "synced"}
 		switch {
 		case rng.Chance(10):
@@ -735,14 +740,15 @@ func c15GenHistory(rng *zv.Rand, nSets int, viaStart bool) *c15History {
 		if !viaStart && rng.Chance(2) && a.idx > 0 {
 			op.StoreFail = false
 			op.ServeHeight-- // the endpoint answers with the previous block
-			op.TxSet, op.InWindow, op.Consistent, op.AppVersion = blocks[a.idx-1].txset, blocks[a.idx-1].inWindow, blocks[a.idx-1].consistent, blocks[a.idx-1].app
+			op.TxSet, op.InWindow, op.Consistent, op.AppVersion = blocks[a.idx-1].txset, blocks[a.idx-1].inWindow || h.WinOff, blocks[a.idx-1].consistent, blocks[a.idx-1].app
+			op.Old = !blocks[a.idx-1].inWindow
 		}
 		h.Ops = append(h.Ops, op)
 		// interleave the other ingest paths on the same store
 		if !viaStart && rng.Chance(35) {
 			i := rng.Intn(nHeights)
 			b := blocks[i]
-			o := c15Op{Kind: "avail", Height: base + int64(i), ServeHeight: base + int64(i), TxSet: b.txset, InWindow: b.inWindow, Consistent: true, ChainOK: true, AppVersion: 9,
+			o := c15Op{Kind: "avail", Height: base + int64(i), ServeHeight: base + int64(i), TxSet: b.txset, InWindow: b.inWindow, Old: !b.inWindow, Consistent: true, ChainOK: true, AppVersion: 9,
 				Getter: []string{"square", "square", "square", "notfound", "deadline", "canceled", "byzantine", "byz-deadline", "byz-notfound", "other"}[rng.Intn(10)]}
 			if rng.Chance(12) && b.txset != 0 {
 				o.StoreFail = true
@@ -752,7 +758,7 @@ func c15GenHistory(rng *zv.Rand, nSets int, viaStart bool) *c15History {
 		if !viaStart && rng.Chance(12) {
 			i := rng.Intn(nHeights)
 			b := blocks[i]
-			o := c15Op{Kind: "xchg", Height: base + int64(i), ServeHeight: base + int64(i), TxSet: b.txset, InWindow: b.inWindow, Consistent: b.consistent, ChainOK: !rng.Chance(2), AppVersion: b.app,
+			o := c15Op{Kind: "xchg", Height: base + int64(i), ServeHeight: base + int64(i), TxSet: b.txset, InWindow: b.inWindow || h.WinOff, Old: !b.inWindow, Consistent: b.consistent, ChainOK: !rng.Chance(2), AppVersion: b.app,
 				FetchOK: !rng.Chance(15)}
 			if rng.Chance(10) && b.txset != 0 {
 				o.StoreFail = true
@@ -766,7 +772,7 @@ func c15GenHistory(rng *zv.Rand, nSets int, viaStart bool) *c15History {
 // ---------------------------------------------------------------- the check of one history
 
 func c15Run(t *testing.T, r *zv.Run, g *zv.Group, w *c15World, h *c15History) {
-	n := c15NewNode(t, w, h.Archival, h.Sources)
+	n := c15NewNode(t, w, h.Archival, h.Sources, h.WinOff)
 	defer func() { _ = n.st.Stop(context.Background()) }()
 	ctx := context.Background()
 	crashed := false
@@ -931,7 +937,9 @@ func c15Run(t *testing.T, r *zv.Run, g *zv.Group, w *c15World, h *c15History) {
 	for i := range h.Ops {
 		op := &h.Ops[i]
 		ts := w.pool[op.TxSet]
-		if op.InWindow || ts.empty {
+		// with the core window disabled the same old block is inside for the listener / exchange and outside for the
+		// (fixed-window) availability path: storing it is legitimate
+		if op.InWindow || ts.empty || h.WinOff {
 			continue
 		}
 		for _, s := range final {
@@ -969,7 +977,7 @@ func c15Run(t *testing.T, r *zv.Run, g *zv.Group, w *c15World, h *c15History) {
 	}
 	g.Case(term, h, key)
 	r.Count("history-sources", strconv.Itoa(h.Sources))
-	r.Count("history-mode", map[bool]string{true: "archival", false: "pruned"}[h.Archival]+map[bool]string{true: "/via-start", false: "/direct"}[h.ViaStart])
+	r.Count("history-mode", map[bool]string{true: "archival", false: "pruned"}[h.Archival]+map[bool]string{true: "/via-start", false: "/direct"}[h.ViaStart]+map[bool]string{true: "/window-disabled", false: ""}[h.WinOff])
 }
 
 // c15SoleUser: the square of this transaction set is used by out-of-window blocks only (the Q4 file is per data hash).
